@@ -113,9 +113,12 @@ def sortBy (le : Due → Due → Bool) (l : List Due) : List Due := l.foldl (fun
 def sortDue (l : List Due) : List Due :=
   sortBy (fun a b => a.back ≥ b.back) (sortBy (fun a b => a.ctl.prio ≤ b.ctl.prio) l)
 
-/-- run the rules due at the current `simTime` in priority order -/
+/-- run the rules due at the current `simTime` (a rule timestep) in priority order.  The time conditions of rules
+compare against the PREVIOUS RULE TIMESTEP `simTime - rule_timestep`, not against the previous hydraulic solution
+(`WNTRSimulator._check_rules`, repaired code fixes/C04-rule-window.patch): every rule timestep is evaluated once, so the
+windows `(r - rule_timestep, r]` tile the time axis and an `=` premise is seen by exactly one of them. -/
 def runRules (cfg : Cfg) (s : St) : St :=
-  let due := sortBy (fun a b => a.ctl.prio ≤ b.ctl.prio) (check cfg.startClock s.prevTime s.simTime cfg.rules)
+  let due := sortBy (fun a b => a.ctl.prio ≤ b.ctl.prio) (check cfg.startClock (s.simTime - cfg.rule) s.simTime cfg.rules)
   { s with vals := due.foldl (fun v d => d.run v) s.vals }
 
 /-- move the clock to the next rule timestep `ruleIter * rule_timestep`, advance `_rule_iter`, evaluate the rules -/
